@@ -1212,5 +1212,10 @@ def known_loop_inflate_diag(prog):
     return 'diagonalize' in ops and bool(ops & {'inflate', 'take', 'concat', 'stack'})
 
 
+def known_loop_takediag_inflate(prog):
+    kinds = {n['p'].get('kind') for n in prog['nodes'] if n['op'] == 'inflate'}
+    return any(n['op'] == 'takediag' for n in prog['nodes']) and 'scalar' in kinds and bool(kinds - {'scalar'})
+
+
 def known_loop(prog):
-    return known_loop_inflate_diag(prog)
+    return known_loop_inflate_diag(prog) or known_loop_takediag_inflate(prog)
